@@ -46,7 +46,9 @@ Init ==
                                              Level(3, a3, b3, "none", "none")>>
 Next == go = FALSE /\ go' = TRUE /\ UNCHANGED chain
 
-DesignOK == go => (ParentUnaffected(chain) /\ OutsideIgnored(chain) /\ BlocksAgreeWithRender(chain) /\ BlocksInherited(chain))
+DesignOK == go => (ParentUnaffected(chain) /\ OutsideIgnored(chain))
+\* (checked in the smaller configurations: it renders every level once more per block of the base document)
+BlocksOK == go => (BlocksAgreeWithRender(chain) /\ BlocksInherited(chain))
 Req3 == <<"a", "b", "q">>
 Blk(k) == [i \in 1..3 |-> [n |-> Req3[i], def |-> Defined(chain, k, Req3[i]),
                             out |-> IF Defined(chain, k, Req3[i]) THEN RenderBlock(chain, k, Req3[i]) ELSE <<>>]]
